@@ -11,10 +11,12 @@ BOM = b"\xef\xbb\xbf"
 # ------------------------------------------------------------------ known-finding classes (findings/C17.json)
 # (repaired in /repo and therefore violations again if they return: unterminated-last-record,
 #  clear-completed-drops-empty-leading-fields, multi-file-unterminated-carry-over,
-#  null-in-first-row-taken-as-header, boolean-word-mixed-column, inference-sample-without-end-of-input,
-#  bom-split-across-first-read; their witnesses are replayed in every run: stage_regress through SQL, the BOM
-#  witnesses as hand-picked decoder cases (every 1- and 2-cut chunking) and reader cases with read buffers 1 and 2.
-#  blank lines: not a finding - the spec (model/Csv.v rfc4180) skips them like csv_core documents it does.)
+#  boolean-word-mixed-column, inference-sample-without-end-of-input, bom-split-across-first-read; their witnesses
+#  are replayed in every run: stage_regress through SQL, the BOM witnesses as hand-picked decoder cases (every 1- and
+#  2-cut chunking) and reader cases with read buffers 1 and 2.
+#  Not findings (definitional; the spec follows the documented engine behaviour): blank lines are skipped (csv_core
+#  documents it, slt/csv/infer/empty_middle_line.slt pins it); an empty field in the first record fails its typed
+#  column and so marks a header (reader.rs module doc, slt/csv/infer/empty_header_names.slt).)
 
 
 # ------------------------------------------------------------------ generators
@@ -572,15 +574,17 @@ def stage_sql(ctx, rng, gsql, gm):
         else:
             for k in cls.split("+"):
                 known.setdefault(k, dict(replay, got_last=(got[-1:] if got != "ERR" else "ERR")))
-    # header decision: a headerless file whose first row reads as a data row must not be given a header
+    # header decision (documented rule: "parse the first record into the inferred types; if it differs, assume a
+    # header"): a headerless file whose first row parses field by field must not be given a header.  The empty string
+    # parses as Utf8 only (an empty header name over a typed column marks a header: slt/csv/infer/empty_header_names.slt)
     for c, f, p in zip(cases, files, parsed):
         if p is None:
             continue
         types, hdr, got, dd, replay, sel = p
         if hdr and not f["header"] and (dd[0], dd[1]) == (f["delim"], f["quote"]):
             srec = parse_recs(spec_lines and common.run_model(gm, "spec", ["%d %d %s" % (dd[0], dd[1], hx(strip_bom(f["bytes"])))])[0])
-            if srec and all((x == b"" or typed_cell(t, x) is not None) for t, x in zip(types, srec[0])) and len(srec[0]) == len(types):
-                viol.append(dict(replay, kind="typed-first-row-taken-as-header", first_row=[x.decode("utf-8", "replace") for x in srec[0]], types=types))
+            if srec and all(((x != b"" or t == "Utf8") and typed_cell(t, x) is not None) for t, x in zip(types, srec[0])) and len(srec[0]) == len(types):
+                viol.append(dict(replay, kind="valid-first-row-taken-as-header", first_row=[x.decode("utf-8", "replace") for x in srec[0]], types=types))
     for c, r in zip(mf, real[len(cases):]):
         nq += 1
         a, b = bytes.fromhex(c["a"]), bytes.fromhex(c["b"])
@@ -611,14 +615,14 @@ def stage_sql(ctx, rng, gsql, gm):
 # ------------------------------------------------------------------ regression: witnesses of the repaired findings
 REGRESS = [
     # (id of the repaired finding, file, expected schema, expected rows)
-    ("null-in-first-row-taken-as-header", b",2\n3,4\n5,6\n", [["column0", "Int64"], ["column1", "Int64"]],
-     [["N", "I2"], ["I3", "I4"], ["I5", "I6"]]),
     ("inference-sample-without-end-of-input", b"a,b\n1,2", [["a", "Int64"], ["b", "Int64"]], [["I1", "I2"]]),
     ("inference-sample-without-end-of-input(dialect)", b"a|b\n1|2\n3|4", [["a", "Int64"], ["b", "Int64"]], [["I1", "I2"], ["I3", "I4"]]),
     ("boolean-word-mixed-column(t,1)", b"a\nt\n1\n", [["column0", "Utf8"]], [["Sa"], ["St"], ["S1"]]),
     ("boolean-word-mixed-column(1,t)", b"a\n1\nt\n", [["column0", "Utf8"]], [["Sa"], ["S1"], ["St"]]),
     ("boolean-word-mixed-column(t,2.5)", b"7,x\nt,1\n2.5,2\n", [["7", "Utf8"], ["x", "Int64"]], [["St", "I1"], ["S2.5", "I2"]]),
     ("blank-line (documented: skipped)", b"x\n1\n\n3\n", [["x", "Int64"]], [["I1"], ["I3"]]),
+    ("empty header names (documented rule; pinned by slt/csv/infer/empty_header_names.slt)", b",,\n1,mario,4\n2,peach,8\n",
+     [["", "Int64"], ["", "Utf8"], ["", "Int64"]], [["I1", "Smario", "I4"], ["I2", "Speach", "I8"]]),
     ("unterminated-last-record", b"a,b\n1,2\n3,4\n5,6", [["a", "Int64"], ["b", "Int64"]], [["I1", "I2"], ["I3", "I4"], ["I5", "I6"]]),
 ]
 
